@@ -50,6 +50,36 @@ CHECKS = {
             "secondary-structure outputs of rnapolis.common only",
             "assumes int/tuple-of-int sets iterate independently of the hash seed; annotator/parser/serialiser outputs are outside",
             "CrossHair symbolic execution with hash order as symbolic schedule", "5/C14"),
+    "C04": ("E2", MC,
+            "the real find_stackings runs on z3 reals (two residues, symbolic unit normals, centroid offset d along a frame axis, symbolic "
+            "atom spread and translation, optional leading non-nucleotide residue); per explored path the obligations 'listed and outside the "
+            "definition by margin' / 'not listed and inside by margin' / topology vs sign of the normals' dot product / lower residue first are "
+            "decided by z3 NRA (unsat) for every geometry of the stated form",
+            "KD-tree replaced by an exact stub; base normals injected; reals stand in for doubles with a 1e-6 band; centroid offset axis-aligned only; "
+            "trusts z3 (two builds raced)",
+            "symbolic execution of the real code on z3-real proxies (own engine), NRA obligations", "5/C04"),
+    "C17": ("E2", MC,
+            "the real find_clashes runs on symbolic geometry (2-3 atoms on a line with symbolic gaps), symbolic occupancies (or None), symbolic "
+            "options (all 32) and is_nucleotide flags; obligations in margin form against the pairwise van-der-Waals definition; the real main() runs "
+            "with its environment stubbed and up to 3 listed clashes with symbolic occupancy sums: printed maxima and CSV rows are compared with the "
+            "listed clashes by z3",
+            "KD-tree = exact stub honouring the radius the code passes; argparse/open/print/read_metadata/read_3d_structure stubbed in main(); "
+            "occupancy exactly 0.0 outside the domain",
+            "symbolic execution of the real code on z3 proxies (own engine), linear real arithmetic obligations", "5/C17"),
+    "C18": ("E2", MC,
+            "both torsion implementations, torsion_angle and Residue3D.chi/chi_class run on z3 reals for points constructed with a prescribed "
+            "dihedral (6 free reals + translation); atan2 is never evaluated: the obligation (Y,X) = k(sin phi, cos phi), k>0 is decided by z3 NRA "
+            "per explored path; agreement of the two implementations, reversal and mirroring (thorough) likewise",
+            "claim per frame: canonical frame (quick), the 6 signed axis permutations (thorough); dense rotations do not finish and are not "
+            "claimed; reals for doubles; known finding: tertiary_v2 returns the negated dihedral (pinned by the test-suite)",
+            "symbolic execution on z3-real proxies (own engine); NRA obligations raced on z3 5.1.0 / 4.8.12", "5/C18"),
+    "C19": ("E2", MC,
+            "the real unify_classification runs on every printable-ASCII label of length <= 7/8 (bounded symbolic string) and each path is "
+            "compared with a finite reference table by two unsat queries; parse_unit_id/_process_interaction_line/parse_fr3d_output run on "
+            "lines assembled from symbolic fields; parse_dssr_output runs on documents with symbolic LW / nt names",
+            "strings are bounded char arrays over z3 Ints; functions are AST-instrumented at run time (f-strings, len/int/str, in, Enum[...]); "
+            "open and orjson.loads stubbed; number fields without whitespace/'+'/'_'",
+            "symbolic execution on bounded-string proxies (own engine) + z3 LIA", "5/C19"),
     "C16": ("E1+E3", MC,
             "for every pairing table up to N positions (CrossHair) and the AllSAT families, the real all_dot_brackets list is compared with the "
             "Grundy specification by z3: each member satisfies spec (sat under its assignment), and the completeness query 'spec(a) and a differs "
